@@ -142,6 +142,10 @@ def oracle_c15(line, impl, model_kv, impl_kv=None, model=None):
         # program's instructions with the fields the syntax cannot express cleared (RtSpec.canon; C16_canonical), whenever
         # the syntax can express them at all
         ta, tm, cn = model_kv.get("textasm"), model_kv.get("mtextasm"), model_kv.get("canon")
+        if ta is not None and cn == "none" and ta not in ("err", "panic", "-") and tm in ("err", "panic"):
+            # an operand the syntax cannot spell (a byte-swap width other than 16/32/64): a text the assembler reads without
+            # complaint necessarily denotes another instruction
+            return "the entries' texts read back as '%s' although an operand has no spelling in the assembler's syntax: the text does not render the encoded operands" % ta[:80]
         if ta is not None and cn not in (None, "none"):
             if ta not in ("err", "panic") and ta != cn:
                 return "the entries' texts do not render the operands in the assembler's syntax: read back they give '%s', the instructions are '%s'" % (ta[:80], cn[:80])
